@@ -496,18 +496,15 @@ def tdb_rules(ctx, A):
 
     # A itself: explicit align, else sole field's alignment, else pointer size
     a_ok = is_call(Astr, 'Option::<T>::unwrap_or') and is_call(Astr[2][1], 'pointer_size') and is_call(Astr[2][0], 'Option::<T>::or')
+    sole_det = ''
     if a_ok:
         first, second = strip(Astr[2][0][2][0]), strip(Astr[2][0][2][1])
         # precedence: the explicit #[align(N)] first, the sole field's alignment only as a fallback
         explicit_first = first[0] == 'var' and tdb.local_ty(first[1]) == 'std::option::Option<usize>' and not find_calls(first, 'then') and \
             any(any(isinstance(x, tuple) and x[0] == 'payload' and x[2] == 'IntLiteral' for x in walk(d)) for d in tdb.init_of(first[1]))
-        th = [x for x in walk(second) if is_call(x, 'bool>::then') or (isinstance(x, tuple) and x[0] == 'call' and re.search(r'bool>?::then$', x[1]))]
-        sole = bool(th) and th[0][2][0][0] == 'bin' and th[0][2][0][1] == 'Eq' and is_int(th[0][2][0][3], 1) and is_call(th[0][2][0][2], '::len')
-        if sole:
-            cl = th[0][2][1]
-            sole = cl[0] == 'closure' and cl[1] in P.fns and any(c_['path'] and c_['path'].endswith('Type::alignment') for c_ in P.fns[cl[1]].calls())
+        sole, sole_det = sole_field_alignment(tdb, second)
         a_ok = explicit_first and sole
-    ctx.ob(['C02', 'C03', 'C20'], 'R-EXPR', 'TDB|alignment-selection', a_ok, 'effective alignment = explicit align, else the sole field\'s alignment, else the pointer size: %s' % show(Astr)[:200], where)
+    ctx.ob(['C02', 'C03', 'C20'], 'R-EXPR', 'TDB|alignment-selection', a_ok, 'effective alignment = explicit align, else the sole field\'s alignment, else the pointer size: %s (%s)' % (show(Astr)[:120], sole_det), where)
     # G3
     g3 = []
     for g in gs:
@@ -786,6 +783,66 @@ def census(ctx, A):
     for fn in (A['TDB'], A['RR']):
         for ok, key, what, where in _census_fn(ctx, fn, [], 0, True):
             ctx.ob(['C03', 'C10'], 'R-CENSUS', key, ok, what, where)
+
+
+def sole_field_alignment(tdb, e):
+    """decision table of the fallback alignment: Some(alignment of the only region's type) exactly when the region list has one
+    element, None otherwise — whatever the spelling (bool::then + flatten, match on a slice pattern, if/else)"""
+    x = strip(e)
+    if x[0] == 'call' and re.search(r'::flatten$', x[1]) and x[2]:
+        x = strip(x[2][0])
+
+    def length_of(c):
+        c = strip(expand(tdb, c))
+        if not (c[0] == 'bin' and c[1] == 'Eq' and is_int(c[3], 1)):
+            return None
+        l = strip(c[2])
+        if is_call(l, '::len') and l[2]:
+            l = strip(l[2][0])
+        elif l[0] == 'un' and l[1] == 'PtrMetadata':
+            l = strip(l[2])
+        else:
+            return None
+        while l[0] == 'call' and l[2] and re.search(r'(::as_slice|::deref|::as_ref|::borrow)$', l[1]):
+            l = strip(l[2][0])
+        return l
+    rows = value_table(tdb, x)
+    if len(rows) != 2:
+        return False, '%d rows' % len(rows)
+    seen = {}
+    for cs, v in rows:
+        if len(cs) != 1:
+            return False, 'compound condition'
+        L = length_of(cs[0][0])
+        if L is None:
+            return False, 'condition is not `number of regions == 1`: %s' % show(cs[0][0])[:60]
+        v = strip(v)
+        while (v[0] == 'agg' and v[1].endswith('Option::Some') and v[2]):
+            v = strip(v[2][0][1])
+        seen[cs[0][1]] = (L, v)
+    if set(seen) != {True, False}:
+        return False, 'rows %s' % sorted(seen)
+    Lt, vt = seen[True]
+    Lf, vf = seen[False]
+    okn = vf[0] == 'agg' and vf[1].endswith('Option::None')
+    oka = is_call(vt, 'Type::alignment') and vt[2]
+    if oka:
+        r = strip(vt[2][0])
+        # <regions>[0].type_ref
+        elem = strip(r[1]) if r[0] == 'field' and r[2] == 'type_ref' else None
+        src = None
+        if elem is not None and elem[0] in ('index', 'cindex'):
+            src = strip(elem[1])
+            oka = (elem[0] == 'cindex' and elem[2] == 0) or (elem[0] == 'index' and is_int(elem[2], 0))
+        elif elem is not None and elem[0] == 'call' and re.search(r'Index', elem[1] + elem[3]) and len(elem[2]) == 2 and is_int(elem[2][1], 0):
+            src = strip(elem[2][0])
+        else:
+            oka = False
+        if oka and src is not None:
+            while src[0] == 'call' and src[2] and re.search(r'(::as_slice|::deref|::as_ref|::borrow)$', src[1]):
+                src = strip(src[2][0])
+            oka = show(expand(tdb, src)) == show(expand(tdb, Lt)) and show(expand(tdb, Lt)) == show(expand(tdb, Lf))
+    return bool(okn and oka), 'one region -> alignment of its type %s, otherwise None %s' % (bool(oka), okn)
 
 
 # ------------------------------------------------------------------------------------------------
